@@ -152,6 +152,9 @@ func (envRemoteSigner) KeySpec() (signature.KeySpec, error) {
 	}
 	return theKeySpec, nil
 }
+// nilCert: the chain handed back by the external signer may end in a nil element (H_C16_cose_sign_nilcert)
+var nilCert, nilCertReturned bool
+
 func (envRemoteSigner) Sign(payload []byte) ([]byte, []*x509.Certificate, error) {
 	if !wellBehaved && rt.Choose("sign.err", 2) == 1 {
 		signErr = true
@@ -168,6 +171,10 @@ func (envRemoteSigner) Sign(payload []byte) ([]byte, []*x509.Certificate, error)
 	}
 	signerCerts = nil
 	for i := 0; i < n; i++ {
+		if nilCert && rt.Choose("cert.nil."+string(rune('0'+i)), 2) == 1 {
+			nilCertReturned = true
+			return sig, append(append([]*x509.Certificate{}, signerCerts...), nil), nil
+		}
 		signerCerts = append(signerCerts, rt.Havoc[*x509.Certificate]("cert"+string(rune('0'+i))))
 	}
 	knownCerts = signerCerts
